@@ -117,6 +117,9 @@ pub struct Expected {
     pub inputs: Vec<(String, String, &'static str)>,
 }
 
+/// Standard input content that stands for "standard input is an open directory: every read fails".
+pub const STDIN_IS_A_DIRECTORY: &[u8] = b"\0XTV-STDIN-IS-A-DIRECTORY\0";
+
 /// Emulates a Run-class invocation with the library.
 pub fn emulate(from: Option<Fmt>, to: Fmt, paths: &[String], files: &BTreeMap<String, PathKind>, stdin: &[u8], stdout_kind: &StdoutKind) -> Expected {
     let mut exp = Expected { exit: 0, stdout_floor: vec![], stdout_ceiling: vec![], names: None, why: String::new(), inputs: vec![] };
@@ -156,6 +159,12 @@ pub fn emulate(from: Option<Fmt>, to: Fmt, paths: &[String], files: &BTreeMap<St
                 break;
             }
             stdin_used = true;
+            if stdin == STDIN_IS_A_DIRECTORY {
+                exp.exit = 1;
+                exp.names = Some(label);
+                exp.why = "standard input cannot be read (it is a directory)".into();
+                break;
+            }
         }
         if open_err == Some("directory") {
             exp.exit = 1;
